@@ -164,6 +164,11 @@ class BaseColumnType(object):
     if isinstance(value_to_convert, objtypes.RaisedException):
       return value_to_convert
 
+    # Alt-text is text that didn't convert before; treat it as that text, so that converting
+    # the result again gives the same value.
+    if isinstance(value_to_convert, AltText):
+      value_to_convert = str(value_to_convert)
+
     try:
       return self.do_convert(value_to_convert)
     except Exception as e:
@@ -366,7 +371,8 @@ class ChoiceList(BaseColumnType):
       # If it's a string that looks like JSON, try to parse it as such.
       if value.startswith('['):
         try:
-          return tuple(str(item) for item in json.loads(value))
+          # An empty list is represented as None, as for any other empty value.
+          return tuple(str(item) for item in json.loads(value)) or None
         except Exception:
           pass
       return value
